@@ -22,6 +22,7 @@ struct Tape {
 	std::vector<uint32_t> in;
 	size_t pos = 0;
 	std::vector<uint32_t> used;   // effective choices (after range reduction): the normal form of the case
+	std::vector<uint8_t> widths;  // per effective choice: how many bytes the byte mode would read for it (corpus export)
 	// byte mode (libFuzzer): choices are read from raw bytes, 1/2/4 bytes depending on the range
 	const uint8_t *bytes = nullptr;
 	size_t nbytes = 0, bpos = 0;
@@ -58,12 +59,14 @@ struct Tape {
 	{
 		if (n <= 1) return 0;   // no choice: consumes nothing and records nothing (keeps replay tapes aligned)
 		uint32_t v = raw(n) % n;
-		used.push_back(v);
+		used.push_back(v); widths.push_back(n <= 256 ? 1 : (n <= 65536 ? 2 : 4));
 		return v;
 	}
 	int range(int lo, int hi) { return lo + (int)below((uint32_t)(hi - lo + 1)); }
 	bool chance(uint32_t num, uint32_t den) { return below(den) >= den - num; } // 0 -> false (default)
-	uint32_t u32() { uint32_t v = raw(0); used.push_back(v); return v; }
+	uint32_t u32() { uint32_t v = raw(0xffffffffu); used.push_back(v); widths.push_back(4); return v; }
+	// the case as libFuzzer input bytes (byte mode reads exactly these values back)
+	Bytes as_bytes() const { Bytes b; for (size_t i = 0; i < used.size(); i++) for (int k = widths[i] - 1; k >= 0; k--) b.push_back((uint8_t)(used[i] >> (8 * k))); return b; }
 	// weighted pick; index 0 is the default when the tape is exhausted
 	size_t pick(std::initializer_list<uint32_t> w)
 	{
